@@ -237,7 +237,10 @@ class Run:
         if self.errors:
             for e in self.errors[:10]:
                 print("CHECKER-ERROR:", e[:600])
-            return 3
+            if not nviol:
+                return 3
+            # violations that were reported with a replayable input stand on their own; the parts of the run that
+            # crashed decide nothing (they are listed above and in the evidence file)
         if nviol:
             return 1
         if nobl + evaluations == 0:
